@@ -1,2 +1,93 @@
-import Moclo.Model.Entity
-/-! placeholder for C12 (theorems follow) -/
+import Moclo.Proofs.RevComp
+import Moclo.Tables.Enzymes
+/-!
+# C12 — strand symmetry: reverse-complemented inputs give the reverse complement
+
+Model: `rc` (`reverse_complement` on the sequence), `rcPattern`, `Run` (the matcher's fits),
+`moduleStructure` / `vectorStructure`.
+
+Proved for every geometry and every record:
+* the generic module and vector structures are their own reverse complement (groups 1 and 3 exchanged);
+* a structure fits a window of a circular record iff its reverse-complement pattern fits a window of the
+  reverse-complemented record, consuming the reverse complement of the same letters, with mirrored group
+  boundaries — hence for the generic structures: *occurs in `w` iff occurs in `rc w`*, and the text of group 1
+  (resp. 3, 2) on one strand is the reverse complement of the text of group 3 (resp. 1, 2) on the other:
+  overhangs exchanged and reverse-complemented, body reverse-complemented.
+**Partial** (decided by the correspondence check and the metamorphic oracle on the implementation, not yet a
+theorem): that the illegal-site screen counts the same number of valid cuts on both strands, and the lift of
+the above through `assemble` (the product of the reverse complements is a rotation of the reverse complement
+of the product).  The duplicate screen of the implementation is *not* strand-symmetric when the vector's
+upstream overhang clashes (known finding, DESIGN §8); the assembly-level statement needs "no reverse-
+complementary pair among all junction overhangs".
+-/
+namespace Moclo.C12
+open Moclo
+
+/-- the generic structures read the same on both strands, for every enzyme geometry -/
+theorem generic_structures_self_rc (g : Geom) :
+    rcPattern (moduleStructure g) = moduleStructure g ∧ rcPattern (vectorStructure g) = vectorStructure g :=
+  ⟨rcPattern_module g, rcPattern_vector g⟩
+
+/-- the structures the classes are matched with *are* these closed forms, for every supported enzyme (as
+`structure()` answers now: kernel-checked on the regenerated table) -/
+theorem live_structures_self_rc : ∀ r ∈ Generated.enzymes, rcPattern r.modS = r.modS ∧ rcPattern r.vecS = r.vecS := by
+  intro r hr
+  have h := List.all_eq_true.mp Tables.enzymes_ok r hr
+  unfold Tables.EnzRow.ok at h
+  simp only [Bool.and_eq_true, decide_eq_true_eq, beq_iff_eq] at h
+  obtain ⟨⟨⟨⟨⟨⟨_, e⟩, f⟩, _⟩, _⟩, _⟩, _⟩ := h
+  rw [e, f]
+  exact ⟨rcPattern_module _, rcPattern_vector _⟩
+
+/-- a pattern fits a word exactly iff its reverse-complement pattern fits the reverse complement -/
+theorem fits_rc (p : Pat) (xs : Word) (ms : List Nat) (h : Run p xs 0 ms xs.length) :
+    Run (rcPattern p) (rc xs) 0 (ms.reverse.map (fun m => xs.length - m)) xs.length :=
+  Run.rc_exact p xs ms h
+
+/-- on the circle -/
+theorem fits_rc_on_circle {p : Pat} {w : Word} {i : Nat} {ms : List Nat} {e : Nat} (hi : i < w.length)
+    (h : Run p (window w i) 0 ms e) :
+    ∃ j, j < w.length ∧ Run (rcPattern p) (window (rc w) j) 0 (ms.reverse.map (fun m => e - m)) e ∧
+      (window (rc w) j).take e = rc ((window w i).take e) :=
+  fits_rc_circular hi h
+
+/-- **a generic module / vector structure occurs in a record iff it occurs in its reverse complement** -/
+theorem generic_occurs_iff (kind : Kind) (g : Geom) (w : Word) :
+    (∃ i ms e, i < w.length ∧ Run (genericStructure kind g) (window w i) 0 ms e) ↔
+    (∃ j ms e, j < (rc w).length ∧ Run (genericStructure kind g) (window (rc w) j) 0 ms e) := by
+  have hself : rcPattern (genericStructure kind g) = genericStructure kind g := by
+    cases kind
+    · exact rcPattern_module g
+    · exact rcPattern_vector g
+  have hrcrc : rc (rc w) = w := by
+    unfold rc
+    rw [List.map_reverse, List.reverse_reverse, List.map_map]
+    have : (Sym.compl ∘ Sym.compl) = id := by
+      funext x; cases x; simp [Sym.compl, compl_compl]
+    rw [this, List.map_id]
+  constructor
+  · rintro ⟨i, ms, e, hi, h⟩
+    obtain ⟨j, hj, hr, _⟩ := fits_rc_circular hi h
+    rw [hself] at hr
+    exact ⟨j, _, e, by rw [rc_length']; exact hj, hr⟩
+  · rintro ⟨j, ms, e, hj, h⟩
+    obtain ⟨i, hi, hr, _⟩ := fits_rc_circular hj h
+    rw [hself, hrcrc] at hr
+    rw [rc_length'] at hi
+    exact ⟨i, _, e, hi, hr⟩
+
+/-- **overhangs exchanged and reverse-complemented, body reverse-complemented**: for a fit consuming the
+word `A` with group boundaries `[a1,b1,a2,b2,a3,b3]`, the mirrored fit on `rc A` has boundaries
+`[L-b3, L-a3, L-b2, L-a2, L-b1, L-a1]`, and the text of each mirrored group is the reverse complement of the
+text of the group it mirrors -/
+theorem mirrored_group_text (A : Word) (a b : Nat) (hab : a ≤ b) (hb : b ≤ A.length) :
+    slice (rc A) (A.length - b) (A.length - a) = rc (slice A a b) := slice_rc A a b hab hb
+
+theorem mirrored_marks (a1 b1 a2 b2 a3 b3 L : Nat) :
+    ([a1, b1, a2, b2, a3, b3].reverse.map (fun m => L - m)) = [L - b3, L - a3, L - b2, L - a2, L - b1, L - a1] := rfl
+
+/-! non-vacuity -/
+example : rcPattern (moduleStructure ⟨[.G, .G, .T, .C, .T, .C], 1, 4⟩) = moduleStructure ⟨[.G, .G, .T, .C, .T, .C], 1, 4⟩ := by
+  decide
+
+end Moclo.C12
